@@ -771,13 +771,17 @@ func vscRunScenario(t *testing.T, tr *vlib.Trace, sc vscScenario, seed int64) {
 		}
 	case "follow":
 		// the stack StartFollowChain composes (internal/core/drand_beacon_control.go), replicated:
-		// scheme store over the raw store, callback store, SyncManager, go Run(), one direct Sync.
+		// scheme store over the raw store, append store, callback store, SyncManager, go Run(), one direct Sync.
 		info := pchain.NewChainInfo(ch.group)
 		ss, err := NewSchemeStore(ctx, base, ch.sch)
 		if err != nil {
 			t.Fatalf("vsc: scheme store: %v", err)
 		}
-		cbs := NewCallbackStore(lg, ss)
+		as, err := newAppendStore(ctx, ss) // since fix F4 (beacon.NewAppendStore in StartFollowChain)
+		if err != nil {
+			t.Fatalf("vsc: append store: %v", err)
+		}
+		cbs := NewCallbackStore(lg, as)
 		h.quiet = false
 		sm, err = NewSyncManager(ctx, &SyncConfig{Log: lg, Store: cbs, BoltdbStore: base, Info: info, Client: client,
 			Clock: clk, NodeAddr: vscSelfAddr})
